@@ -89,9 +89,10 @@ Theorem C03_code_remains : forall (G P : Type) (self : EvolutionaryAlgorithm G P
 Proof. exact code_remains. Qed.
 Print Assumptions C03_code_remains.
 
-Theorem C03_code_init : forall (G P : Type) (dG : G) (dP : P) iters pop_size minimization optimal err nin,
-  let self := py_EvolutionaryAlgorithm_init G P dG dP iters pop_size minimization optimal err nin in
+Theorem C03_code_init : forall (G P : Type) (dG : G) (dP : P) iters pop_size minimization optimal err nin elitism keep_history n_jobs has_cb,
+  let self := py_EvolutionaryAlgorithm_init G P dG dP iters pop_size minimization optimal err nin elitism keep_history n_jobs has_cb in
   abs_best G P (ea_thefittest G P self) = None /\ tf_no_update_counter G P (ea_thefittest G P self) = 0%Z /\
-  ea_calls G P self = 0%Z /\ abs_aim (ea_aim G P self) = aim_of minimization optimal err /\ ea_aim G P self <> NegInf.
+  ea_calls G P self = 0%Z /\ abs_aim (ea_aim G P self) = aim_of minimization optimal err /\ ea_aim G P self <> NegInf /\
+  ea_stats G P self = [] /\ snd (ea_on_generation G P self) = 0%Z.
 Proof. exact code_init. Qed.
 Print Assumptions C03_code_init.
